@@ -57,6 +57,8 @@ impl<T> ResourceStorage<T> {
 				.push(resource)
 				.unwrap_or_else(|_| panic!("unused resource producer is full"));
 		}
+		#[cfg(kira_verif)]
+		crate::verif_hooks::yield_point(crate::verif_hooks::STORAGE_BETWEEN_REMOVE_AND_ADD);
 		while let Ok((key, resource)) = self.new_resource_consumer.pop() {
 			self.resources
 				.insert_with_key(key, resource)
@@ -130,6 +132,8 @@ impl<T> SelfReferentialResourceStorage<T> {
 
 	pub fn remove_and_add(&mut self, remove_test: impl FnMut(&T) -> bool) {
 		self.remove_unused(remove_test);
+		#[cfg(kira_verif)]
+		crate::verif_hooks::yield_point(crate::verif_hooks::STORAGE_BETWEEN_REMOVE_AND_ADD);
 		while let Ok((key, resource)) = self.new_resource_consumer.pop() {
 			self.resources
 				.insert_with_key(key, resource)
@@ -210,6 +214,8 @@ impl<T> ResourceController<T> {
 
 	pub fn insert_with_key(&mut self, key: Key, resource: T) {
 		self.remove_unused();
+		#[cfg(kira_verif)]
+		crate::verif_hooks::yield_point(crate::verif_hooks::CONTROLLER_INSERT_AFTER_DRAIN);
 		self.new_resource_producer
 			.get_mut()
 			.expect("new resource producer mutex poisoned")
